@@ -2,10 +2,13 @@
 package c01
 
 import (
+	"bufio"
 	"bytes"
 	"fmt"
+	"io"
 	"sync/atomic"
 	"testing"
+	"testing/iotest"
 
 	"github.com/fiorix/go-diameter/v4/diam"
 	"github.com/fiorix/go-diameter/v4/diam/datatype"
@@ -27,6 +30,30 @@ type Case struct {
 	TopDown bool `json:"top_down,omitempty"`
 	// Literal: AVP struct literals instead of the constructors.
 	Literal bool `json:"literal,omitempty"`
+	// Reader: how the image is offered to ReadMessage (see source).
+	Reader int `json:"reader,omitempty"`
+}
+
+// source offers an image through one of the io.Reader shapes a caller may legitimately hand to
+// ReadMessage: all at once, the last bytes together with io.EOF (what TLS, HTTP bodies and
+// iotest.DataErrReader do), one byte or half of the request per Read, behind a bufio.Reader, and
+// followed by the first bytes of a next message (which must be left alone).
+func source(kind int, b []byte) io.Reader {
+	switch kind {
+	case 1:
+		return iotest.DataErrReader(bytes.NewReader(b))
+	case 2:
+		return iotest.OneByteReader(bytes.NewReader(b))
+	case 3:
+		return iotest.HalfReader(bytes.NewReader(b))
+	case 4:
+		return bufio.NewReaderSize(iotest.DataErrReader(bytes.NewReader(b)), 16)
+	case 5:
+		return bytes.NewReader(append(append([]byte{}, b...), 1, 0, 0, 20, 0x80, 0, 1, 1))
+	case 6:
+		return iotest.DataErrReader(iotest.HalfReader(bytes.NewReader(b)))
+	}
+	return bytes.NewReader(b)
 }
 
 const sigAmb = "addr-family-ambiguous"
@@ -50,7 +77,7 @@ func sigFor(c Case, dflt string) string {
 
 func classify(c Case) (bool, []string) {
 	nt, cl := gen.MsgClasses(&c.Msg)
-	return nt, append(cl, "dict:"+c.Dict.Name)
+	return nt, append(cl, "dict:"+c.Dict.Name, fmt.Sprintf("reader:%d", c.Reader))
 }
 
 func genCase(t *rapid.T) Case {
@@ -64,6 +91,9 @@ func genCase(t *rapid.T) Case {
 	c.DropV = rapid.Bool().Draw(t, "drop-v")
 	c.TopDown = rapid.Bool().Draw(t, "top-down")
 	c.Literal = rapid.IntRange(0, 3).Draw(t, "literal") == 0
+	if rapid.IntRange(0, 2).Draw(t, "plain-reader") != 0 {
+		c.Reader = rapid.IntRange(1, 6).Draw(t, "reader")
+	}
 	return c
 }
 
@@ -147,7 +177,7 @@ func runForward(c Case) *ev.Failure {
 		var sink bytes.Buffer
 		other.WriteTo(&sink)
 	}
-	m2, err := diam.ReadMessage(bytes.NewReader(b1), p)
+	m2, err := diam.ReadMessage(source(c.Reader, b1), p)
 	if err != nil {
 		return ev.Failf(sigFor(c, "reread-error"), "ReadMessage of the serialised message: %v; wire % x", err, clip(b1))
 	}
@@ -189,7 +219,7 @@ func runBackward(c Case) *ev.Failure {
 	if len(wire) >= 1<<24 {
 		return nil
 	}
-	m, err := diam.ReadMessage(bytes.NewReader(wire), p)
+	m, err := diam.ReadMessage(source(c.Reader, wire), p)
 	if err != nil {
 		return ev.Failf(sigFor(c, "wellformed-rejected"), "ReadMessage rejects a well-formed message: %v; wire % x", err, clip(wire))
 	}
